@@ -1,0 +1,21 @@
+//go:build verif
+
+// Contracts for the gvc verification-condition generator (see /verif/DESIGN.md).
+// This file contains no executable code: a package clause and comments only.
+
+package internal
+
+/*@
+// C11: FsyncDir makes the directory entries durable or reports an error.
+func internal.FsyncDir(path) (err)
+  modifies $alloc, path_synced, file_closed
+  ensures [C11.fsyncdir] err == nil ==> path_synced == old(path_synced)[path := true]
+  ensures [C11.fsyncdir-err] err != nil ==> (forall p int :: {path_synced[p]} p != path ==> path_synced[p] == old(path_synced[p]))
+
+// C03: CreateFile creates (or truncates) exactly the named path and returns a fresh open handle on it.
+func internal.CreateFile(filename, fi) (f, err)
+  modifies $alloc, path_handle, path_synced
+  ensures err == nil ==> f != nil && fresh(f) && file_written[f] == 0 && file_path[f] == filename && !file_closed[f]
+  ensures err == nil ==> path_handle == old(path_handle)[filename := f] && path_synced == old(path_synced)[filename := false]
+  ensures err != nil ==> f == nil && path_handle == old(path_handle) && path_synced == old(path_synced)
+*/
